@@ -1,0 +1,81 @@
+/*
+Copyright libCellML Contributors
+
+Licensed under the Apache License, Version 2.0 (the "License");
+you may not use this file except in compliance with the License.
+You may obtain a copy of the License at
+
+    http://www.apache.org/licenses/LICENSE-2.0
+
+Unless required by applicable law or agreed to in writing, software
+distributed under the License is distributed on an "AS IS" BASIS,
+WITHOUT WARRANTIES OR CONDITIONS OF ANY KIND, either express or implied.
+See the License for the specific language governing permissions and
+limitations under the License.
+*/
+
+#pragma once
+
+// Verification seams.  Nothing in this header is compiled unless the library
+// is built with -DLIBCELLML_VERIF; without that define the shipped behaviour
+// is byte-for-byte the original one.
+
+#ifdef LIBCELLML_VERIF
+
+#    include <cstdint>
+#    include <fstream>
+#    include <istream>
+#    include <streambuf>
+#    include <string>
+
+namespace libcellml {
+namespace verif {
+
+/**
+ * File seam used by the importer.  When @c openFile is set, it is asked for a
+ * stream buffer for @p url; it returns @c nullptr to signal "cannot be opened".
+ * The seam keeps ownership of the returned buffer.  When @c openFile is not
+ * set, the real file is opened exactly as the unhooked code does.
+ */
+using OpenFileFunction = std::streambuf *(*)(const std::string &url);
+inline OpenFileFunction openFile = nullptr;
+
+class InputFile: public std::istream
+{
+public:
+    explicit InputFile(const std::string &url)
+        : std::istream(nullptr)
+    {
+        if (openFile != nullptr) {
+            auto buffer = openFile(url);
+            if (buffer == nullptr) {
+                setstate(std::ios_base::failbit);
+            } else {
+                rdbuf(buffer);
+            }
+        } else {
+            if (mFileBuffer.open(url, std::ios_base::in) == nullptr) {
+                setstate(std::ios_base::failbit);
+            } else {
+                rdbuf(&mFileBuffer);
+            }
+        }
+    }
+
+private:
+    std::filebuf mFileBuffer;
+};
+
+/**
+ * Observer of the analyser model's equivalence cache.  Called once per call to
+ * AnalyserModel::areEquivalentVariables() with the two addresses as ordered by
+ * the method, the cache key the method computed, and whether the answer was
+ * served from the cache.
+ */
+using EquivalenceCacheObserver = void (*)(const void *analyserModel, uintptr_t v1, uintptr_t v2, uintptr_t key, bool cacheHit, size_t cacheSize);
+inline EquivalenceCacheObserver equivalenceCacheObserver = nullptr;
+
+} // namespace verif
+} // namespace libcellml
+
+#endif
